@@ -1590,6 +1590,14 @@ func (sc *serverConn) handleHeaderFrame(strm *Stream, fr *FrameHeader) error {
 				return sc.rejectBlock(strm, fr, b, NewResetStreamError(EnhanceYourCalm, "request body is too large"))
 			}
 
+			// A second content-length that says something else makes the
+			// message malformed (RFC 7230 3.3.2). Taking the last one let a
+			// later field, in the trailers even, overrule the length the body
+			// is checked against.
+			if strm.hasContentLength && n != strm.contentLength {
+				return sc.rejectBlock(strm, fr, b, NewResetStreamError(ProtocolError, "conflicting content-length fields"))
+			}
+
 			strm.contentLength = n
 			strm.hasContentLength = true
 
